@@ -55,7 +55,7 @@ def run_api(ctx, exe, jobs, tag, nproc=8, timeout=3600):
         res.update(got)
         os.remove(inp)
         os.remove(outp)
-    return res
+    return inject_api_fault(res)
 
 
 def kind(r):
